@@ -146,6 +146,7 @@ def run(ctx):
     combos = [(False, True), (True, True), (False, False), (True, False)]
     rng.shuffle(combos)
     patterns = [1, 0, 2, 3]
+    seq0_done = [False]
     ec_nets = ['bitcoin', 'bitcoin', 'bitcoin', 'litecoin', 'testnet', 'dogecoin']
     for trial in range(16 if T else 6):
         pw = rng.choice(passes[:4]) if trial != 1 else ''
@@ -153,6 +154,8 @@ def run(ctx):
         # every combination of (lot/sequence given, compressed) - the flag byte is 0x20 / 0x00 / 0x24 / 0x04 (BIP38)
         with_lot, comp = combos[trial % 4]
         lot, seq = (rng.randrange(100000, 999999), rng.choice([0, 0, 1, 4095, rng.randrange(0, 4095)])) if with_lot else (None, None)
+        if with_lot and not seq0_done[0]:
+            seq0_done[0], seq = True, 0            # (sequence number 0 is a sequence number: once per run for certain)
         salt = bytes(rng.randrange(256) for _ in range(8))
         # seeds with structure: leading / inner / trailing zero bytes (fixed-width fields must keep them), besides random ones
         pat = patterns[trial % 4] if trial < 4 else rng.randrange(4)
